@@ -8,11 +8,13 @@ RULE = ("K: (a) `_reversible_slice_boundaries(T,k)` for EVERY 1<=k<=T<=Tmax (40 
         "T=0 samples, compared exactly with the model's half-to-even boundaries; the partition predicate (first 0, last T, "
         "strictly increasing) is evaluated on the implementation's own output. (b) `fdtdx.run_fdtd` on generated tiny "
         "scenes (3-8 cells per axis; periodic / PEC / PMC / PML faces; dipole or plane source with a random on/off "
-        "switch; field + energy detectors with random switches; fresh or dirty start container) under gradient_config "
+        "switch; field + energy detectors with random switches; a material block that always carries a magnetic conductivity "
+        "in one scene and an electric conductivity in another; fresh or dirty start container) under gradient_config "
         "None, checkpointed(n) for random n, reversible(c) for c in {0, random, T-1} and the rejected c=T, and "
         "stopping_condition+gradient: final step count, the sequence of step indices handed to `forward` (traced), the "
         "arguments of `_reversible_slice_boundaries`, and the `max_steps` of every while loop are compared exactly with "
-        "the model; final E/H and all detector states of every strategy are compared with the no-gradient run (1e-9, "
+        "the model; final E/H, all detector states and the material / conductivity arrays of the RETURNED container (which must "
+        "still be present) of every strategy are compared with the no-gradient run (plain forward calls, no jax.grad; 1e-9, "
         "binary64) - that comparison is the property itself, evaluated on the implementation. non-trivial = a strategy "
         "other than None, or k not dividing T / a half-way boundary.")
 
@@ -117,9 +119,11 @@ def build(sc, grad=None, x64=True):
                                      fixed_E_polarization_vector=(1, 0, 0), switch=ssw)
     cons.append(s.place_at_center(vol))
     objs.append(s)
-    if sc.get("eps"):
+    if sc.get("eps") or sc.get("sigma_e") or sc.get("sigma_m"):
         blk = fdtdx.UniformMaterialObject(name="blk", partial_grid_shape=(2, 2, 2),
-                                          material=fdtdx.Material(permittivity=sc["eps"]))
+                                          material=fdtdx.Material(permittivity=sc.get("eps") or 1.0,
+                                                                  electric_conductivity=sc.get("sigma_e") or 0.0,
+                                                                  magnetic_conductivity=sc.get("sigma_m") or 0.0))
         cons.append(blk.place_relative_to(vol, axes=(0, 1, 2), own_positions=(-1, -1, -1), other_positions=(-1, -1, -1),
                                           grid_margins=(1,) * 3))
         objs.append(blk)
@@ -165,6 +169,10 @@ def dirty(j, arrays, seed):
 def snapshot(ts, arrays):
     """(final step, flat dict of numpy arrays): E, H, every detector state"""
     out = {"E": np.asarray(arrays.fields.E), "H": np.asarray(arrays.fields.H)}
+    for name in ("inv_permittivities", "inv_permeabilities", "electric_conductivity", "magnetic_conductivity"):
+        v = getattr(arrays, name, None)          # the returned container must keep the material / conductivity arrays
+        if v is not None and hasattr(v, "shape"):
+            out["mat:" + name] = np.asarray(v)
     for k, v in sorted(arrays.detector_states.items()):
         for k2, v2 in sorted(v.items()):
             out[f"det:{k}:{k2}"] = np.asarray(v2)
@@ -296,7 +304,8 @@ def check_run(ctx, sc, g, start, ref, idx):
     ctx.case(sample={"op": "run", **case, "model": rep} if idx == 1 else None,
              nontrivial=("run", json.dumps(sc, sort_keys=True), json.dumps(g, sort_keys=True), start),
              op="run_fdtd", method=g["method"], bound=sc["bound"], start="fresh" if start == "fresh" else "dirty",
-             src=sc["src"], halfway_boundary=half)
+             src=sc["src"], halfway_boundary=half,
+             conductivity="magnetic" if sc.get("sigma_m") else "electric" if sc.get("sigma_e") else "none")
     ctx.expect_equal("run", case, impl, rep)
     if g["method"] == "reversible":
         b = ctx.driver.ask_many([f"bounds {T} {g['c'] + 1}"])[0]
@@ -378,6 +387,12 @@ def run(ctx):
         tm[f"scene{i}_at_s"] = round(time.time() - t1, 1)
         # one short run per quick pass, so that c = T-1 (all slices of length 1) is affordable
         sc = gen_scene(ctx.rng.fork(), 5 if (i == 1 and not ctx.thorough) else ctx.scale(12, 24), i + ctx.seed)
+        # lossy media: always one scene with a magnetic-conductivity block and one with an electric-conductivity block
+        # (the conductivity arrays are not differentiable inputs; every strategy has to carry them into its step function)
+        if i % 3 == 0:
+            sc["sigma_m"] = float(ctx.rng.choice([1e9, 3e9]))
+        elif i % 3 == 1:
+            sc["sigma_e"] = float(ctx.rng.choice([1e5, 3e4]))
         start = "fresh" if i % 2 == 0 else str(ctx.rng.randint(1, 10 ** 6))
         ref = check_run(ctx, sc, {"method": "none"}, start, None, idx)
         strategies = gen_strategies(ctx.rng, sc["T"], ctx.thorough)
@@ -413,10 +428,10 @@ def search(ctx, hints):
                 return
     # strategies: smallest scenes / step counts first, every checkpoint count
     for T in (2, 3, 4, 5, 7, 10):
-        for bound in ("periodic", "pec"):
+        for bound, lossy in (("periodic", {"sigma_m": 1e9}), ("pec", {"sigma_e": 1e5}), ("periodic", {})):
             sc = {"shape": [3, 3, 4], "T": T, "bound": bound, "src": "dipole", "pol": 2, "src_switch": None,
                   "dets": [{"kind": "field", "switch": None}, {"kind": "energy", "switch": {"interval": 2}}],
-                  "spp": 4.0, "eps": None}
+                  "spp": 4.0, "eps": None, **lossy}
             for start in ("fresh", "17"):
                 t0, s0, _, _ = run_impl(sc, {"method": "none"}, start=start)
                 strategies = [{"method": "reversible", "c": c} for c in range(0, T)]
